@@ -35,10 +35,7 @@ fn describe(k: &(u8, u8, u8), a: &Actor) -> String {
 }
 
 pub struct Summary {
-    pub faults_fired: u64,
-    pub bytes_after_fault: u64,
     pub bytes_read: u64,
-    pub errors: u64,
     pub nontrivial: bool,
     pub sig: u64,
     pub hash: u64,
@@ -159,12 +156,15 @@ fn evaluate_inner(plan: &Plan, out: &RunOut, obs: &mut Vec<Violation>) -> Vec<Vi
 
     // ---- (2) every operation completes
     if out.capped {
-        let pending: Vec<String> = out.app.actors.iter().filter(|(_, a)| a.started && !a.done).map(|(k, a)| describe(k, a)).collect();
+        let mut pending: Vec<String> = out.app.actors.iter().filter(|(_, a)| a.started && !a.done).map(|(k, a)| describe(k, a)).collect();
+        for (id, since) in &out.app.handler_reads {
+            pending.push(format!("accepted stream #{id} (server side, not attributable to a client stream): read pending since {} us", since / 1000));
+        }
         vs.push(v(
             p,
             &format!("{pre}.hang"),
-            format!("virtual time {} s, neither progress nor completion for >= 50 s (150 s in the vanish family) of virtual time, pending tasks={} : {}", out.end_ns / 1_000_000_000, out.app.pending, pending.join(" | ")),
-            "",
+            format!("virtual time {} s: {}; pending tasks={} : {}", out.end_ns / 1_000_000_000, out.app.hang_reason, out.app.pending, pending.join(" | ")),
+            if out.app.hang_reason.starts_with("datagrams") { "livelock" } else { "parked" },
         ));
     }
 
@@ -392,5 +392,5 @@ pub fn summarize(plan: &Plan, out: &RunOut) -> Summary {
         "forge" | "forge_forget" => out.stats.forged_delivered > 0 && bytes_after_fault > 0,
         _ => faults_fired > 0 && bytes_after_fault > 0,
     };
-    Summary { faults_fired, bytes_after_fault, bytes_read, errors, nontrivial, sig, hash, probes }
+    Summary { bytes_read, nontrivial, sig, hash, probes }
 }
